@@ -30,16 +30,17 @@ KNOBS = {'n_min': 2, 'n_max': 4,
 
 # a second family: applications with wait_exit programs (they exit as expected a few seconds after RUNNING), three
 # sequence levels, loads that matter
-WAIT_KNOBS = {'n_min': 2, 'n_max': 4,
-              'apps': {'n_apps': (1, 2), 'n_progs': (2, 4), 'seq_max': 3, 'startsecs': (0, 2), 'managed_p': 1.0,
-                       'autorestart': ('false',), 'loads': (5, 45), 'allow_wait_exit': True, 'wait_exit_p': 0.45},
+WAIT_KNOBS = {'n_min': 2, 'n_max': 3,
+              'apps': {'n_apps': (1, 2), 'n_progs': (3, 5), 'seq_max': 3, 'startsecs': (0, 2), 'managed_p': 1.0,
+                       'autorestart': ('false',), 'loads': (5, 30), 'allow_wait_exit': True, 'wait_exit_p': 0.35, 'identifiers_p': 0.1},
               'behaviours': ['normal'], 'wait_exit_behaviours': ['exit_expected'], 'same_behaviour_everywhere': True,
+              'strategies': ['LESS_LOADED', 'LESS_LOADED', 'MOST_LOADED', 'LESS_LOADED_NODE', 'MOST_LOADED_NODE', 'CONFIG'],
               'fence': 'false', 'n_rounds': [1, 2]}
 
 
 def plan(tier, seed):
     return [{'seed': seed * 1000003 + i} for i in range(COUNT[tier])] + \
-        [{'seed': seed * 1000003 + 700000 + i, 'family': 'wait-exit'} for i in range(COUNT[tier] // 2)]
+        [{'seed': seed * 1000003 + 700000 + i, 'family': 'wait-exit'} for i in range(COUNT[tier])]
 
 
 def run_case(case):
